@@ -341,6 +341,10 @@ theorem C01_witness_mux_no_retry :
     noRetryDrain [.data [9], .eof, .data [1, 2, 3]] = [9] ∧
     scriptData [.data [9], .eof, .data [1, 2, 3]] = [9, 1, 2, 3] := by decide
 
+/-- the copy loop reads a logical stream through `MuxStreamConnection.Read` (the `muxRead` of the model): the wrapper
+    offers io.Copy no `WriteTo`/`ReadFrom` that would take the data around it. -/
+theorem C01_mux_read_is_the_data_path : Gen.muxStreamFastPaths = [] := by decide
+
 /-! non-vacuity -/
 example : muxDrain 5 [.data [9], .eof, .data [1, 2], .eof, .eof] = [9, 1, 2] := by decide
 example : (cfWrite 4 { rd := { buf := [], src := [[7, 8]] }, peeked := false, peekOk := false }).1 = true := by decide
@@ -366,3 +370,4 @@ end SA.Framing
 #print axioms SA.Framing.C01_client_first_gate
 #print axioms SA.Framing.C01_mux_retry_delivers
 #print axioms SA.Framing.C01_witness_mux_no_retry
+#print axioms SA.Framing.C01_mux_read_is_the_data_path
